@@ -143,6 +143,23 @@ type SOpts struct {
 	// Reuse: parse with long-lived Parser/TokenStream/Lexer objects shared by all Reuse runs of this
 	// process (re-initialised through Init before each parse), instead of fresh ones.
 	Reuse bool
+	// NoReinit: like Reuse (separate long-lived objects), but Parser.Init is called only once, before the
+	// first parse; the handler and listener of the current run are reached through an indirection.
+	NoReinit bool
+}
+
+var shared2 struct {
+	inited map[string]bool
+	record func(t string, f, s, e int)
+	onErr  func(line, s, e int) bool
+	jsS    js.TokenStream
+	jsP    js.Parser
+	tmS    tm.TokenStream
+	tmP    tm.Parser
+	testL  test.Lexer
+	testP  test.Parser
+	jsonL  json.Lexer
+	jsonP  json.Parser
 }
 
 var shared struct {
@@ -162,6 +179,11 @@ func ResetShared() {
 	shared.tmS, shared.tmP = tm.TokenStream{}, tm.Parser{}
 	shared.testL, shared.testP = test.Lexer{}, test.Parser{}
 	shared.jsonL, shared.jsonP = json.Lexer{}, json.Parser{}
+	shared2.inited = map[string]bool{}
+	shared2.jsS, shared2.jsP = js.TokenStream{}, js.Parser{}
+	shared2.tmS, shared2.tmP = tm.TokenStream{}, tm.Parser{}
+	shared2.testL, shared2.testP = test.Lexer{}, test.Parser{}
+	shared2.jsonL, shared2.jsonP = json.Lexer{}, json.Parser{}
 }
 
 // ShippedEntries lists the entry points per shipped parser.
@@ -233,6 +255,12 @@ func RunShipped(text string, o SOpts) (res *SRun) {
 			ctx.Cancel()
 		}()
 	}
+	if o.NoReinit {
+		if shared2.inited == nil {
+			shared2.inited = map[string]bool{}
+		}
+		shared2.record, shared2.onErr = record, onErr
+	}
 	var err error
 	switch o.Parser {
 	case "js":
@@ -240,11 +268,20 @@ func RunShipped(text string, o SOpts) (res *SRun) {
 		if o.Reuse {
 			s, p = &shared.jsS, &shared.jsP
 		}
+		if o.NoReinit {
+			s, p = &shared2.jsS, &shared2.jsP
+		}
 		l := func(nt js.NodeType, offset, endoffset int) { record(nt.String(), 0, offset, endoffset) }
 		s.Init(text, l)
 		curOff = streamLexerOffset(s)
 		s.SetDialect(js.Dialect(o.Dialect))
-		p.Init(func(se js.SyntaxError) bool { return onErr(se.Line, se.Offset, se.Endoffset) }, l)
+		if !o.NoReinit {
+			p.Init(func(se js.SyntaxError) bool { return onErr(se.Line, se.Offset, se.Endoffset) }, l)
+		} else if !shared2.inited["js"] {
+			shared2.inited["js"] = true
+			p.Init(func(se js.SyntaxError) bool { return shared2.onErr(se.Line, se.Offset, se.Endoffset) },
+				func(nt js.NodeType, offset, endoffset int) { shared2.record(nt.String(), 0, offset, endoffset) })
+		}
 		switch o.Entry {
 		case 0:
 			err = p.ParseModule(ctx, s)
@@ -263,10 +300,19 @@ func RunShipped(text string, o SOpts) (res *SRun) {
 		if o.Reuse {
 			s, p = &shared.tmS, &shared.tmP
 		}
+		if o.NoReinit {
+			s, p = &shared2.tmS, &shared2.tmP
+		}
 		l := func(nt tm.NodeType, offset, endoffset int) { record(nt.String(), 0, offset, endoffset) }
 		s.Init(text, l)
 		curOff = streamLexerOffset(s)
-		p.Init(func(se tm.SyntaxError) bool { return onErr(se.Line, se.Offset, se.Endoffset) }, l)
+		if !o.NoReinit {
+			p.Init(func(se tm.SyntaxError) bool { return onErr(se.Line, se.Offset, se.Endoffset) }, l)
+		} else if !shared2.inited["tm"] {
+			shared2.inited["tm"] = true
+			p.Init(func(se tm.SyntaxError) bool { return shared2.onErr(se.Line, se.Offset, se.Endoffset) },
+				func(nt tm.NodeType, offset, endoffset int) { shared2.record(nt.String(), 0, offset, endoffset) })
+		}
 		if o.Entry == 0 {
 			err = p.ParseFile(ctx, s)
 		} else {
@@ -280,11 +326,21 @@ func RunShipped(text string, o SOpts) (res *SRun) {
 		if o.Reuse {
 			lx, p = &shared.testL, &shared.testP
 		}
+		if o.NoReinit {
+			lx, p = &shared2.testL, &shared2.testP
+		}
 		lx.Init(text)
 		curOff = func() int { o, _ := lx.Pos(); return o }
-		p.Init(func(nt test.NodeType, flags test.NodeFlags, offset, endoffset int) {
-			record(nt.String(), int(flags), offset, endoffset)
-		})
+		if !o.NoReinit {
+			p.Init(func(nt test.NodeType, flags test.NodeFlags, offset, endoffset int) {
+				record(nt.String(), int(flags), offset, endoffset)
+			})
+		} else if !shared2.inited["test"] {
+			shared2.inited["test"] = true
+			p.Init(func(nt test.NodeType, flags test.NodeFlags, offset, endoffset int) {
+				shared2.record(nt.String(), int(flags), offset, endoffset)
+			})
+		}
 		if o.Entry == 0 {
 			err = p.ParseTest(ctx, lx)
 		} else {
@@ -302,8 +358,16 @@ func RunShipped(text string, o SOpts) (res *SRun) {
 		if o.Reuse {
 			lx, p = &shared.jsonL, &shared.jsonP
 		}
+		if o.NoReinit {
+			lx, p = &shared2.jsonL, &shared2.jsonP
+		}
 		lx.Init(text)
-		p.Init(func(nt json.NodeType, offset, endoffset int) { record(nt.String(), 0, offset, endoffset) })
+		if !o.NoReinit {
+			p.Init(func(nt json.NodeType, offset, endoffset int) { record(nt.String(), 0, offset, endoffset) })
+		} else if !shared2.inited["json"] {
+			shared2.inited["json"] = true
+			p.Init(func(nt json.NodeType, offset, endoffset int) { shared2.record(nt.String(), 0, offset, endoffset) })
+		}
 		err = p.Parse(lx)
 		if se, ok := err.(json.SyntaxError); ok {
 			res.ErrKind, res.S, res.E = "syntax", se.Offset, se.Endoffset
